@@ -560,6 +560,11 @@ fn attributes(node: dom::XmlNode) -> Vec<dom::XmlNode> {
 fn child(node: dom::XmlNode) -> Vec<dom::XmlNode> {
     let mut nodes = vec![];
 
+    // an attribute has a string-value and no children in the XPath data model
+    if let dom::XmlNode::Attribute(_) = node {
+        return nodes;
+    }
+
     for c in node.child_nodes().iter() {
         // the document type declaration is not a node of the XPath data model
         if !matches!(c, dom::XmlNode::DocumentType(_)) {
